@@ -118,7 +118,14 @@ def e2e_sv(D=1000, dt=10):
               f"{type(e).__name__}: {str(e)[:160]}... ({len(tt)} target times; "
               f"near-duplicates: {[(a, b) for a, b in zip(tt, tt[1:]) if b - a < 1e-6][:2]})")
         return 1
-    return check_protocol("emu-sv", tt, req, log, counter["steps"], res.get_result_times(obs))
+    return check_protocol("emu-sv", tt, req, log, counter["steps"], stored_times(res, obs))
+
+
+def stored_times(res, obs):
+    try:
+        return list(res.get_result_times(obs))
+    except ValueError:          # nothing stored for this observable
+        return []
 
 
 def check_protocol(name, tt, req, log, steps, stored):
@@ -183,7 +190,7 @@ def e2e_mps(D=200, dt=10):
             os.remove(impl.autosave_file)
         except Exception:
             pass
-    return check_protocol("emu-mps", tt, req, log, counter["steps"], res.get_result_times(obs))
+    return check_protocol("emu-mps", tt, req, log, counter["steps"], stored_times(res, obs))
 
 
 def e2e_default_times(backend="sv", D=1000, dt=10):
@@ -222,7 +229,7 @@ def e2e_default_times(backend="sv", D=1000, dt=10):
             except Exception:
                 pass
         res = impl.results
-    stored = [float(t) for t in res.get_result_times(obs1)]
+    stored = [float(t) for t in stored_times(res, obs1)]
     if stored != own:
         print(f"REPRODUCED: emu-{backend}: Occupation requested at {own} only (another observable uses the default "
               f"times {default}) is stored at {stored}: a time it did not request")
